@@ -31,6 +31,7 @@ DECIDED = [
     "R-C13-OFF / R-C13-ORDER / R-C13-FIELDS (round 6): bucket ownership table (producer: store args, read results; worker: read args, store results; nobody deletes); one store attempt per execution, no waiting; the Redis bucket broker reads the server on every get",
     "R-C13-AWAITED: in the files this property is anchored in, no bare statement calls a coroutine function (the operation would never run)",
     "R-C13-LAZY (sweep stage two): after an eager response the reported outcome is the one set last (set_result records True, set_exception False), else the action's default",
+    "R-C13-FIELDS (sweep stage two): which converter encoding applies to which return annotation (PydanticConverter.convert_outputs decision table)",
 ]
 NOT_DECIDED = ["bucket content across retry chains as a value (follows from same-id overwrite)", "bucket TTL expiry timing"]
 ASSUMPTIONS = ["store_bucket under an existing id overwrites (both bucket brokers: dict assignment / Redis SET)"]
@@ -40,6 +41,9 @@ def run(ctx: Ctx) -> None:
     from .shared import every_operation_awaited
 
     every_operation_awaited(ctx, "R-C13-AWAITED")  # in the files this property is anchored in, no asynchronous operation is created and dropped
+    from .shared import pydantic_output_table
+
+    pydantic_output_table(ctx, "R-C13-FIELDS")  # "the converter-encoded return value": which encoding applies to which return annotation
     from .shared import eager_outcome_defaults
 
     eager_outcome_defaults(ctx, "R-C13-LAZY")  # after an eager response the bucket holds the result or exception set last (success flag included)
